@@ -718,7 +718,7 @@ def table_key(mk, name, sg):
         return ('layout', '*', 'layout-arith')
     if mk == 'pool' and sg.startswith('Add(cast') or (mk == 'pool' and sg in ('Add(n, l)', 'Add(Param?, ?)')):
         return ('pool', 'reserve', 'Add(n, l)')
-    if sg == 'unwrap(pop)' and mk == 'pool':
+    if sg in ('unwrap(pop)', 'expect(pop)') and mk == 'pool':
         return ('pool', 'get_free_index', 'unwrap(pop)')
     if mk == 'tree' and name == 'clear' and sg.startswith('index('):
         return ('tree', 'clear', 'index(store.unused)')
